@@ -318,8 +318,10 @@ fn r_item(r: &mut Rendered, it: &Item) {
             r.enter(*id, "PragmaDirective");
             r.t("pragma");
             r.tw(name);
-            if !value.is_empty() {
-                r.tw(value);
+            // the constraints of a version range are separate tokens of the language (solang's lexer hands the
+            // whole value over as one raw string): layouts may change the white space between them
+            for part in value.split_whitespace() {
+                r.tw(part);
             }
             r.tw(";");
             r.leave();
